@@ -105,3 +105,64 @@ def render(m, meta, trials=90):
                     elif st.tobytes() != e.tobytes(): errs.append(("pixels differ", e.mode, imgs[0][1].mode))
                 if errs: problems.append(("iterm2", term, meth, (W, H), (cw, ch), mode, alpha_spec, errs[:3]))
     return {"reproduced": bool(problems), "input": "seeded random kitty / iTerm2 renders, payloads decoded", "observed": [repr(p)[:600] for p in problems[:3]]}
+
+
+def file_gate(m, meta):
+    """iterm2 WHOLE renders of image files with reading-from-file enabled: whatever the gate decides, the transmitted image shows what
+    the alpha option asks for - a colour string composites transparent pixels over that colour, None drops the alpha channel, a float
+    threshold leaves the picture alone; and `size=` is the length of the decoded payload"""
+    import base64, io, os, re
+    import tests  # noqa: F401
+    from PIL import Image
+    from term_image.image import ITerm2Image
+    tests.set_fg_bg_colors(None, (0, 0, 0))
+    saved = (ITerm2Image._supported, ITerm2Image._TERM, ITerm2Image._TERM_VERSION)
+    ITerm2Image._supported, ITerm2Image._TERM, ITerm2Image._TERM_VERSION = True, "iterm2", "3.5"
+    problems = []
+    d = os.environ.get("VERIF_SCRATCH", "/tmp")
+    paths = []
+    try:
+        for mode in ("RGBA", "RGB", "LA", "P"):
+            img = Image.new("RGBA", (8, 8), (200, 10, 10, 255))
+            for x in range(4):
+                for y in range(8):
+                    img.putpixel((x, y), (0, 0, 255, 0))          # the left half is fully transparent
+            if mode == "RGB":
+                src = img.convert("RGB")
+            elif mode == "LA":
+                src = img.convert("LA")
+            elif mode == "P":
+                src = img.convert("RGB").convert("P")
+            else:
+                src = img
+            path = os.path.join(d, f"c03_gate_{os.getpid()}_{mode}.png")
+            src.save(path)
+            paths.append(path)
+            for alpha in (0.5, "#00ff00", "#", None):
+                image = ITerm2Image.from_file(path)
+                image.read_from_file = True
+                image.set_size(width=8)
+                out = image._renderer(image._render_image, alpha, method="whole")
+                mm = re.search(r"\x1b\]1337;File=([^:]*):([^\x07\x1b]*)", out)
+                keys = dict(kv.split("=") for kv in mm.group(1).split(";"))
+                data = base64.b64decode(mm.group(2))
+                if int(keys["size"]) != len(data):
+                    problems.append((mode, alpha, "size= differs from the payload length", keys["size"], len(data)))
+                shown = Image.open(io.BytesIO(data)).convert("RGBA")
+                px = shown.getpixel((1, 1))
+                has_alpha = mode in ("RGBA", "LA")
+                if has_alpha and isinstance(alpha, str) and px[3] != 255:
+                    problems.append((mode, alpha, "transparent pixel transmitted still transparent (not composited over the colour)", px))
+                if has_alpha and alpha == "#00ff00" and px[:3] != (0, 255, 0) and mode == "RGBA":
+                    problems.append((mode, alpha, "transparent pixel does not show the requested colour", px))
+                if has_alpha and alpha is None and px[3] != 255:
+                    problems.append((mode, alpha, "alpha channel kept although transparency is disabled", px))
+                image.close()
+    finally:
+        ITerm2Image._supported, ITerm2Image._TERM, ITerm2Image._TERM_VERSION = saved
+        for p in paths:
+            try:
+                os.unlink(p)
+            except OSError:
+                pass
+    return {"reproduced": bool(problems), "input": "iterm2 WHOLE renders of RGBA / RGB / LA / P files, read_from_file on, alpha 0.5 / colour / '#' / None", "observed": [repr(p)[:200] for p in problems[:3]]}
